@@ -306,6 +306,42 @@ End CONTAINER.
 (* not / oneOf / anyOf / allOf / enum on sub-results                                      *)
 Definition np (o : outcome) : bool := negb (is_panic o).
 
+
+(* induction principle for the nested inductive [json] *)
+Section JIND.
+  Variable P : json -> Prop.
+  Hypothesis Hnull : P JNull.
+  Hypothesis Hbool : forall b, P (JBool b).
+  Hypothesis Hnum : forall x, P (JNum x).
+  Hypothesis Hstr : forall s, P (JStr s).
+  Hypothesis Harr : forall l, Forall P l -> P (JArr l).
+  Hypothesis Hobj : forall l, Forall (fun kv => P (snd kv)) l -> P (JObj l).
+  Fixpoint json_ind' (v : json) : P v :=
+    match v with
+    | JNull => Hnull | JBool b => Hbool b | JNum x => Hnum x | JStr s => Hstr s
+    | JArr l => Harr l ((fix go (l : list json) : Forall P l :=
+                           match l with [] => Forall_nil _ | x :: r => Forall_cons x (json_ind' x) (go r) end) l)
+    | JObj l => Hobj l ((fix go (l : list (string * json)) : Forall (fun kv => P (snd kv)) l :=
+                           match l with [] => Forall_nil _ | kv :: r => Forall_cons kv (json_ind' (snd kv)) (go r) end) l)
+    end.
+End JIND.
+
+(* comparing with a number-free value, "numbers never equal" and numeric equality coincide *)
+Lemma eq_gen_number_free v : forall m,
+  number_free m = true -> json_eq_gen (fun _ _ => false) v m = json_eqb v m.
+Proof.
+  induction v as [| b | x | s | l IH | l IH] using json_ind'; intros m Hm; destruct m; try reflexivity.
+  - discriminate Hm.
+  - cbn [number_free] in Hm. unfold json_eqb. cbn [json_eq_gen].
+    revert l0 Hm. induction IH as [|x l Hx Hl IHl]; intros [|y m] Hm; try reflexivity.
+    cbn [forallb] in Hm. apply andb_prop in Hm as [Hy Hm'].
+    fold json_eqb. rewrite (Hx y Hy). f_equal. apply IHl. exact Hm'.
+  - cbn [number_free] in Hm. unfold json_eqb. cbn [json_eq_gen].
+    revert l0 Hm. induction IH as [|[k x] l Hx Hl IHl]; intros [|[k' y] m] Hm; try reflexivity.
+    cbn [forallb snd] in Hm. apply andb_prop in Hm as [Hy Hm'].
+    fold json_eqb. cbn [snd] in Hx. rewrite (Hx y Hy). f_equal. apply IHl. exact Hm'.
+Qed.
+
 Section COMP.
   Variable st : settings.
   Variable c : score.
@@ -382,13 +418,30 @@ Section COMP.
     cbn [forallb] in H. apply andb_prop in H as [Ho Hr]. destruct o; cbn in *; auto; discriminate.
   Qed.
 
+  Lemma enum_eq_spec m :
+    match m with JNum _ => true | _ => number_free m end = true \/ st_usenum st = false ->
+    enum_eq st v m = json_eqb v m.
+  Proof.
+    unfold enum_eq. intros [Hm|Hu]; [|now rewrite Hu].
+    destruct (st_usenum st); [|reflexivity].
+    destruct v; try reflexivity; destruct m; try reflexivity; apply eq_gen_number_free; exact Hm.
+  Qed.
   Lemma enum_step_accepts :
+    g_enum_here (st_usenum st) c = true ->
     accepts (enum_step st c v) = is_nil (c_enum c) || json_in json_eqb v (c_enum c).
-  Proof. unfold enum_step. destruct (c_enum c) as [|x l]; [reflexivity|]. cbn [is_nil orb].
-         destruct (json_in json_eqb v (x :: l)); reflexivity. Qed.
+  Proof.
+    unfold enum_step, g_enum_here. intros G. destruct (c_enum c) as [|x l]; [reflexivity|]. cbn [is_nil orb].
+    assert (E : json_in (enum_eq st) v (x :: l) = json_in json_eqb v (x :: l)).
+    { generalize (x :: l) G. clear. intros en G. induction en as [|m en IH]; [reflexivity|].
+      cbn [json_in]. rewrite IH.
+      - f_equal. apply enum_eq_spec. destruct (st_usenum st); [left|now right].
+        cbn [negb orb forallb] in G. now apply andb_prop in G as [G _].
+      - destruct (st_usenum st); [|reflexivity]. cbn [negb orb forallb] in *. now apply andb_prop in G as [_ G]. }
+    rewrite E. destruct (json_in json_eqb v (x :: l)); reflexivity.
+  Qed.
   Lemma enum_step_nopanic : is_panic (enum_step st c v) = false.
   Proof. unfold enum_step. destruct (c_enum c) as [|x l]; [reflexivity|].
-         destruct (json_in json_eqb v (x :: l)); reflexivity. Qed.
+         destruct (json_in (enum_eq st) v (x :: l)); reflexivity. Qed.
 
   Lemma seq_accepts a b : accepts (seq a b) = accepts a && accepts b.
   Proof. destruct a; reflexivity. Qed.
